@@ -451,7 +451,13 @@ class Facts:
             caller = self.fn(next(iter(cs)))
             bm = base.qname.rsplit('::', 1)[0]
             # same module / impl - or a free function of the module next to the impl whose method calls it
-            if caller is not None and (caller.qname.rsplit('::', 1)[0] == bm or (caller.kind == 'AssocFn' and caller.qname.rsplit('::', 2)[0] == bm)):
+            trait_mod = None
+            if caller is not None and '::<' in caller.qname:
+                # a method of a trait impl: `crate::<module::Type as Trait>::method` is written in crate::module
+                import re as _re
+                m = _re.match(r'^([\w:]+?)::<([\w:]+)::\w+(?:<[^>]*>)? as ', caller.qname)
+                trait_mod = (m.group(1) + '::' + m.group(2)) if m else None
+            if caller is not None and (caller.qname.rsplit('::', 1)[0] == bm or (caller.kind == 'AssocFn' and caller.qname.rsplit('::', 2)[0] == bm) or trait_mod == bm):
                 return self.home(caller, depth + 1)
         return base
 
